@@ -1,5 +1,5 @@
 """Sidecar: contracts on the real functions of /repo, keyed by file::qualname.  Nothing here edits /repo."""
-MODULES=['bits_reg','dsl','mem','sched','nets','upblk','gendag','portrules','mambaff','sccwrap']
+MODULES=['bits_reg','dsl','mem','sched','nets','upblk','gendag','portrules','mambaff','sccwrap','watched']
 
 def rtl_specs():
   from . import rtl_arb, rtl_queues, rtl_cksum
@@ -133,7 +133,7 @@ PROPERTIES={
    explanation="double-buffer primitives proved deductively; tick composition checked natively on an enumerated zoo (bounded)",
    extra=['contracts:c07_extra'], require_cover=False, assumptions=["user code does not rebind signals with plain '=' at simulation time"]),
  'C11': dict(level='other',
-   claim="Mixed. Proved per generated text (captured at run time from the real DynamicSchedulePass and Mamba2020Pass applied to the cyclic designs of the zoo; all signal widths and values, any behaviour of the group): the loop wrapped around a cyclic group (wrapped_SCC_k) returns only if every watched signal has the value it had before the last evaluation of the group, raises UpblkCyclicError only after 100 evaluations that each changed a watched signal, raises nothing else and evaluates the group at most 100 times (termination measure 100 - N). Which signals are watched (final_variables), and the SCC computation are covered only by the bounded stand-in: on the cyclic family of the design zoo (20 designs: false loops through disjoint slices and struct fields, convergent true loops, two signals between the same pair of blocks, 3-block rings; with and without a predecessor block fixing the entry point; both definition orders) the cycle-capable schedulers (dynamic, Mamba2020) return only fixed points (re-running any block changes nothing), false loops agree across schedulers, schedulers without cycle support reject the design, and the constraint objects cover every communicated bit (so every bit carrying the cycle is watched). Inputs: seeded random, including one-input-at-a-time histories.",
+   claim="Mixed. Proved per generated text (captured at run time from the real DynamicSchedulePass and Mamba2020Pass applied to the cyclic designs of the zoo; all signal widths and values, any behaviour of the group): the loop wrapped around a cyclic group (wrapped_SCC_k) returns only if every watched signal has the value it had before the last evaluation of the group, raises UpblkCyclicError only after 100 evaluations that each changed a watched signal, raises nothing else and evaluates the group at most 100 times (termination measure 100 - N). Proved for two regions of schedule_intra_cycle in both passes (extracted mechanically by statement text, arbitrary sets and signal hierarchies): every signal that constraint_objs records for an edge inside the cyclic group is collected, and the clean-up of the watched set keeps every collected signal or replaces it by its whole top-level signal and adds nothing else. The SCC computation and the choice of what constraint_objs records are covered only by the bounded stand-in: on the cyclic family of the design zoo (20 designs: false loops through disjoint slices and struct fields, convergent true loops, two signals between the same pair of blocks, 3-block rings; with and without a predecessor block fixing the entry point; both definition orders) the cycle-capable schedulers (dynamic, Mamba2020) return only fixed points (re-running any block changes nothing), false loops agree across schedulers, schedulers without cycle support reject the design, and the constraint objects cover every communicated bit (so every bit carrying the cycle is watched). Inputs: seeded random, including one-input-at-a-time histories.",
    note="The generated SCC wrapper and the watched-set computation are not under discharged contracts. Labelled bounded.",
    explanation="executable statement of the property evaluated natively on an exhaustively enumerated family of cyclic designs",
    extra=['contracts:c11_extra'], require_cover=False, assumptions=[]),
